@@ -541,6 +541,13 @@ func controlInjection(id string, seed uint64) runner.Result {
 		next++
 		mid := uint64(1)
 		rpc := fmt.Sprintf("/rpc/%d", i)
+		if r.Intn(2) == 0 {
+			// the invoke sequence starts with a metadata packet; an unknown control packet may sit inside it
+			b = refwire.Encode(b, refwire.Frame{Stream: sid, Message: mid, Kind: 7, Done: true, Data: []byte{10, 6, 10, 1, 'k', 18, 1, 'v'}})
+			mid++
+			desc = append(desc, "metadata")
+			inject(sid, &mid, false, &next)
+		}
 		b = refwire.Encode(b, refwire.Frame{Stream: sid, Message: mid, Kind: 1, Done: true, Data: []byte(rpc)})
 		mid++
 		desc = append(desc, "invoke"+rpc)
@@ -600,6 +607,83 @@ func controlInjection(id string, seed uint64) runner.Result {
 	}
 	res := runner.Hold(id, hist, strings.Contains(hist, "ctl("))
 	res.Events = int64(nrpc)
+	return res
+}
+
+// writerAPIToOld: packets written through the public writer layer of the current code
+// (Writer.WritePacket for single frames, SplitN + Writer.WriteFrame for split packets), with kinds
+// v0.0.17 knows and, carrying the control bit, kinds it does not; the released reader must yield
+// the same packets minus the control ones.
+func writerAPIToOld(id string, seed uint64) runner.Result {
+	r := &payload.SplitMix{S: seed}
+	var buf bytes.Buffer
+	wr := drpcwire.NewWriter(&buf, payload.Pick(r, []int{1, 64, 4096, 1 << 20}))
+	sid, mid := uint64(1), uint64(1)
+	var want []pk
+	var desc []string
+	for i := 0; i < 3+r.Intn(10); i++ {
+		if r.Intn(5) == 0 {
+			sid++
+			mid = 1
+		}
+		ctl := r.Intn(3) == 0
+		kind := drpcwire.Kind(payload.Pick(r, []int{1, 2, 3, 5, 6, 7}))
+		if ctl {
+			kind = drpcwire.Kind(payload.Pick(r, []int{4, 8, 9, 33, 63}))
+		}
+		n := payload.Pick(r, []int{0, 1, 10, 100, 1000, 5000})
+		data := payload.Make(sid, 0, 0, uint32(i), n)
+		pkt := drpcwire.Packet{ID: drpcwire.ID{Stream: sid, Message: mid}, Kind: kind, Control: ctl, Data: data}
+		split := payload.Pick(r, []int{-1, 1, 7, 64, 1024})
+		var err error
+		if split < 0 {
+			err = wr.WritePacket(pkt)
+		} else {
+			err = drpcwire.SplitN(pkt, split, wr.WriteFrame)
+		}
+		if err != nil {
+			return runner.Inconcl(id, "write failed: "+err.Error())
+		}
+		want = append(want, pk{sid, mid, uint8(kind), ctl, string(data)})
+		desc = append(desc, fmt.Sprintf("k%d ctl=%v len%d split=%d", kind, ctl, len(data), split))
+		mid++
+	}
+	if err := wr.Flush(); err != nil {
+		return runner.Inconcl(id, "flush failed: "+err.Error())
+	}
+	stream := buf.Bytes()
+	var fails []string
+	pn, en := decodeNew(stream)
+	po, eo := decodeOld(stream)
+	switch {
+	case en != nil:
+		fails = append(fails, fmt.Sprintf("the current reader rejects what the current writer layer emitted: %v", en))
+	case diff(pn, want) != "":
+		fails = append(fails, "the current reader does not read back what was written: "+diff(pn, want))
+	}
+	switch {
+	case eo != nil:
+		fails = append(fails, fmt.Sprintf("the v0.0.17 reader rejects the stream: %v", eo))
+	default:
+		for _, p := range po {
+			if !oldKinds[p.kind] {
+				fails = append(fails, fmt.Sprintf("the v0.0.17 reader delivers %s, a kind its stream layer does not know (control packets must be skipped as a whole)", p))
+				break
+			}
+		}
+		wnc := noControl(want)
+		for i := range wnc {
+			wnc[i].ctl = false
+		}
+		if d := diff(po, wnc); d != "" {
+			fails = append(fails, "v0.0.17 decodes differently from what was written minus control packets: "+d)
+		}
+	}
+	if len(fails) > 0 {
+		return runner.Violation(id, "writer-api-to-old", strings.Join(desc, " ; ")+"\n"+strings.Join(fails, "\n"))
+	}
+	res := runner.Hold(id, strings.Join(desc, ";"), true)
+	res.Events = int64(len(want))
 	return res
 }
 
@@ -687,6 +771,7 @@ func gen(tier string, seed uint64) []runner.Scenario {
 		add("interop-old-client", func(id string) runner.Result { return interop(id, payload.Hash(seed, 0x183, uint64(i)), true) })
 		add("interop-new-client", func(id string) runner.Result { return interop(id, payload.Hash(seed, 0x184, uint64(i)), false) })
 		add("control-injection", func(id string) runner.Result { return controlInjection(id, payload.Hash(seed, 0x185, uint64(i))) })
+		add("writer-api-to-old", func(id string) runner.Result { return writerAPIToOld(id, payload.Hash(seed, 0x187, uint64(i))) })
 		if i%5 == 0 {
 			add("metadata-compat", func(id string) runner.Result { return metadataCompat(id, payload.Hash(seed, 0x186, uint64(i))) })
 		}
@@ -700,7 +785,7 @@ func main() {
 	runner.Main(runner.Check{
 		Property: "C18",
 		Level:    "exploration",
-		Rule:     "six families against the vendored released v0.0.17: (new-to-old) both directions' byte streams of seeded multi-RPC programs of the current code (soft cancel on, clean and early-ending RPCs, metadata) decoded by both readers, and every packet the old reader delivers must be of a kind v0.0.17 knows; (old-to-new) seeded operation sequences on the v0.0.17 stream/writer layer (split sizes, writer buffers, invoke/metadata/messages up to 150 KB/close/closesend/error) plus packets abandoned mid-write, decoded by both readers; (interop) one RPC of each of the four shapes between an old client and a new server and between a new client and an old server over chunked transports; (control-injection) raw sessions with unknown kinds 8-63 carrying the control bit, single and multi-frame, aimed at the current stream (inside an RPC), at the stream that just ended and at a not-yet-invoked stream id (between RPCs, after the reply arrived). (metadata-compat) seeded metadata maps with key/value lengths at the length-prefix boundaries (0..2, 125..130, 255/256, 16381..16386, 16511/16512) encoded by each generation and decoded by the other; deeper metadata coverage is in C11. Non-trivial: streams with bytes / sessions with at least one injection. Distinct: by seed-determined program text.",
+		Rule:     "seven families against the vendored released v0.0.17: (new-to-old) both directions' byte streams of seeded multi-RPC programs of the current code (soft cancel on, clean and early-ending RPCs, metadata) decoded by both readers, and every packet the old reader delivers must be of a kind v0.0.17 knows; (old-to-new) seeded operation sequences on the v0.0.17 stream/writer layer (split sizes, writer buffers, invoke/metadata/messages up to 150 KB/close/closesend/error) plus packets abandoned mid-write, decoded by both readers; (interop) one RPC of each of the four shapes between an old client and a new server and between a new client and an old server over chunked transports; (control-injection) raw sessions with unknown kinds 8-63 carrying the control bit, single and multi-frame, aimed at the current stream (inside an RPC, also between its metadata and its invoke), at the stream that just ended and at a not-yet-invoked stream id (between RPCs, after the reply arrived). (writer-api-to-old) seeded packets (known kinds, and unknown kinds with the control bit) written through Writer.WritePacket or SplitN+Writer.WriteFrame at several split sizes, decoded by both readers; (metadata-compat) seeded metadata maps with key/value lengths at the length-prefix boundaries (0..2, 125..130, 255/256, 16381..16386, 16511/16512) encoded by each generation and decoded by the other; deeper metadata coverage is in C11. Non-trivial: streams with bytes / sessions with at least one injection. Distinct: by seed-determined program text.",
 		Assumptions: []string{
 			"the vendored copy under /verif/third_party/drpc_v0017 is the released v0.0.17 with only import paths renamed",
 			"frames stay within the old reader's 1 MiB scanner limit",
